@@ -62,7 +62,9 @@ UserReset == /\ ltab' = ltab /\ since' \in {0, RestartTo - 1} /\ state' = "None"
 AcceptedRefComplete == /\ ltab' = ltab /\ RefRestart /\ total' = total + 1 /\ since' = 0 /\ state' = "None"
                        /\ recs' = recs /\ warm' \in BOOLEAN
 (* set_reference on a batch detector: a new epoch starts, nothing is counted *)
-SetReference == /\ ltab' = ltab /\ since' \in {0, RestartTo - 1, since} /\ state' = "None" /\ warm' \in BOOLEAN /\ recs' = recs
+SetReference == /\ ltab' = ltab /\ since' \in {0, RestartTo - 1, since}
+                /\ state' \in {"None", state}      \* (NNDVI keeps a reported drift visible until the next update)
+                /\ warm' \in BOOLEAN /\ recs' = recs
                 /\ \E inc \in {0} \cup {i - 1 : i \in Incs} : total' = total + inc
 
 Next == Accepted \/ Rejected \/ UserReset \/ AcceptedRefComplete \/ SetReference
